@@ -415,7 +415,11 @@ func (in *inliner) run() []string {
 					failed[o] = "nested call sites (next round)"
 					return
 				}
-				text, why := in.expand(f, src, st, call, form, c, fd)
+				var next ast.Stmt
+				if i+1 < len(list) {
+					next = list[i+1]
+				}
+				text, why := in.expand(f, src, st, call, form, c, fd, next)
 				if why != "" {
 					failed[o] = why
 					return
@@ -564,7 +568,7 @@ func siteOf(st ast.Stmt) (*ast.CallExpr, string) {
 }
 
 // expand produces the text that replaces statement st (which calls c at `call`) inside caller.
-func (in *inliner) expand(file *ast.File, src []byte, st ast.Stmt, call *ast.CallExpr, form string, c *callee, caller *ast.FuncDecl) (string, string) {
+func (in *inliner) expand(file *ast.File, src []byte, st ast.Stmt, call *ast.CallExpr, form string, c *callee, caller *ast.FuncDecl, next ast.Stmt) (string, string) {
 	info := in.pk.TypesInfo
 	fset := in.pk.Fset
 	sig := c.obj.Type().(*types.Signature)
@@ -675,8 +679,19 @@ func (in *inliner) expand(file *ast.File, src []byte, st ast.Stmt, call *ast.Cal
 			fmt.Fprintf(&b, "var %s %s\n", rn, typeStr(sig.Results().At(i).Type()))
 		}
 	}
+	// the caller's error handler, when the site has the form `x, err := h(...); if err != nil { ...; return ... }`: it is repeated at the
+	// helper's failing returns, so that a failure leaves the caller right there instead of joining the successful path first
+	var hd *handler
+	if !direct && !named {
+		hd = in.handlerOf(src, st, form, next, sig)
+		if hd != nil {
+			for i := 0; i < sig.Results().Len(); i++ {
+				hd.types = append(hd.types, typeStr(sig.Results().At(i).Type()))
+			}
+		}
+	}
 	// body
-	body, nret, bwhy := in.body(c, file, scope, call.Pos(), suffix, resNames, named, addImports, form == "return" && !named)
+	body, nret, bwhy := in.bodyH(c, file, scope, call.Pos(), suffix, resNames, named, addImports, form == "return" && !named, hd)
 	if bwhy != "" {
 		return "", bwhy
 	}
@@ -800,7 +815,7 @@ func (in *inliner) qualifier(file *ast.File, scope *types.Scope, pos token.Pos) 
 
 // body prints the callee's body for insertion at the call site: local identifiers get the suffix, returns become assignments to the
 // result variables followed by a break out of the labelled switch, imported packages are referred to by the caller file's names.
-func (in *inliner) body(c *callee, file *ast.File, scope *types.Scope, pos token.Pos, suffix string, resNames []string, named bool, addImports map[string]string, keepReturns bool) (string, int, string) {
+func (in *inliner) bodyH(c *callee, file *ast.File, scope *types.Scope, pos token.Pos, suffix string, resNames []string, named bool, addImports map[string]string, keepReturns bool, hd *handler) (string, int, string) {
 	info := in.pk.TypesInfo
 	csrc := in.src(c.file)
 	start := in.off(c.decl.Body.Lbrace)
@@ -884,6 +899,94 @@ func (in *inliner) body(c *callee, file *ast.File, scope *types.Scope, pos token
 		}
 		return true
 	})
+	// returns whose error is certainly not nil: `return ..., E` directly inside `if E != nil { ... }` with no assignment to E before it in that
+	// block, or an error made on the spot (package-level Err… variable, errors.New, fmt.Errorf)
+	knownNonNil := map[*ast.ReturnStmt]bool{}
+	if hd != nil {
+		var scan func(list []ast.Stmt, nonNil map[string]bool)
+		scan = func(list []ast.Stmt, nonNil map[string]bool) {
+			cur := map[string]bool{}
+			for k := range nonNil {
+				cur[k] = true
+			}
+			for _, st := range list {
+				switch x := st.(type) {
+				case *ast.AssignStmt:
+					for _, l := range x.Lhs {
+						if id, ok := l.(*ast.Ident); ok {
+							delete(cur, id.Name)
+						}
+					}
+				case *ast.IfStmt:
+					inner := map[string]bool{}
+					for k := range cur {
+						inner[k] = true
+					}
+					if x.Init != nil {
+						if as, ok := x.Init.(*ast.AssignStmt); ok {
+							for _, l := range as.Lhs {
+								if id, ok := l.(*ast.Ident); ok {
+									delete(inner, id.Name)
+								}
+							}
+						}
+					}
+					var conj func(e ast.Expr)
+					conj = func(e ast.Expr) {
+						be, ok := ast.Unparen(e).(*ast.BinaryExpr)
+						if !ok {
+							return
+						}
+						if be.Op == token.LAND {
+							conj(be.X)
+							conj(be.Y)
+							return
+						}
+						if be.Op == token.NEQ && isNilIdent(be.Y) {
+							if id, ok := be.X.(*ast.Ident); ok {
+								inner[id.Name] = true
+							}
+						}
+					}
+					conj(x.Cond)
+					scan(x.Body.List, inner)
+					switch eb := x.Else.(type) {
+					case *ast.BlockStmt:
+						scan(eb.List, cur)
+					case *ast.IfStmt:
+						scan([]ast.Stmt{eb}, cur)
+					}
+				case *ast.BlockStmt:
+					scan(x.List, cur)
+				case *ast.ForStmt:
+					scan(x.Body.List, map[string]bool{})
+				case *ast.RangeStmt:
+					scan(x.Body.List, map[string]bool{})
+				case *ast.ReturnStmt:
+					if len(x.Results) == 0 {
+						continue
+					}
+					switch e := ast.Unparen(x.Results[len(x.Results)-1]).(type) {
+					case *ast.Ident:
+						if cur[e.Name] || (strings.HasPrefix(e.Name, "Err") && len(e.Name) > 3) {
+							knownNonNil[x] = true
+						}
+					case *ast.SelectorExpr:
+						if strings.HasPrefix(e.Sel.Name, "Err") && len(e.Sel.Name) > 3 {
+							knownNonNil[x] = true
+						}
+					case *ast.CallExpr:
+						if se, ok := e.Fun.(*ast.SelectorExpr); ok {
+							if p, ok := se.X.(*ast.Ident); ok && ((p.Name == "errors" && se.Sel.Name == "New") || (p.Name == "fmt" && se.Sel.Name == "Errorf")) {
+								knownNonNil[x] = true
+							}
+						}
+					}
+				}
+			}
+		}
+		scan(nbody.List, map[string]bool{})
+	}
 	// returns
 	nret := 0
 	label := "__L" + suffix
@@ -897,8 +1000,68 @@ func (in *inliner) body(c *callee, file *ast.File, scope *types.Scope, pos token
 			if depth > 0 || keepReturns {
 				return true
 			}
-			nret++
 			var stmts []ast.Stmt
+			if hd != nil && len(x.Results) == len(resNames) && len(x.Results) > 0 && !isNilIdent(x.Results[len(x.Results)-1]) {
+				// x, err := e0, e1 ; [if err != nil] { handler } ; results = x, err ; break
+				hs, herr := hd.stmts(fs)
+				if herr == nil {
+					var lhs []ast.Expr
+					allBlank := true
+					for _, n := range hd.lhs {
+						lhs = append(lhs, ast.NewIdent(n))
+						if n != "_" {
+							allBlank = false
+						}
+					}
+					_ = allBlank
+					// typed declarations first (a result may be the untyped nil), then one assignment
+					for i, n := range hd.lhs {
+						if n == "_" {
+							continue
+						}
+						te, perr := parser.ParseExpr(hd.types[i])
+						if perr != nil {
+							herr = perr
+							break
+						}
+						stmts = append(stmts, &ast.DeclStmt{Decl: &ast.GenDecl{Tok: token.VAR, Specs: []ast.Spec{&ast.ValueSpec{Names: []*ast.Ident{ast.NewIdent(n)}, Type: te}}}})
+					}
+					stmts = append(stmts, &ast.AssignStmt{Lhs: lhs, Tok: token.ASSIGN, Rhs: x.Results})
+					for _, n := range hd.lhs {
+						if n != "_" {
+							stmts = append(stmts, &ast.AssignStmt{Lhs: []ast.Expr{ast.NewIdent("_")}, Tok: token.ASSIGN, Rhs: []ast.Expr{ast.NewIdent(n)}})
+						}
+					}
+					errName := hd.lhs[len(hd.lhs)-1]
+					if herr == nil && knownNonNil[x] {
+						stmts = append(stmts, hs...)
+						cur.Replace(&ast.BlockStmt{List: stmts})
+						return true
+					}
+					if herr == nil {
+						// a blank on the caller's side loses a value the results need: only when every result is named there
+						var rl, rr []ast.Expr
+						for i, rn := range resNames {
+							rl = append(rl, ast.NewIdent(rn))
+							if hd.lhs[i] == "_" {
+								rr = nil
+								break
+							}
+							rr = append(rr, ast.NewIdent(hd.lhs[i]))
+						}
+						if rr != nil {
+							stmts = append(stmts, &ast.IfStmt{Cond: &ast.BinaryExpr{X: ast.NewIdent(errName), Op: token.NEQ, Y: ast.NewIdent("nil")}, Body: &ast.BlockStmt{List: hs}})
+							nret++
+							stmts = append(stmts, &ast.AssignStmt{Lhs: rl, Tok: token.ASSIGN, Rhs: rr})
+							stmts = append(stmts, &ast.BranchStmt{Tok: token.BREAK, Label: ast.NewIdent(label)})
+							cur.Replace(&ast.BlockStmt{List: stmts})
+							return true
+						}
+					}
+					stmts = nil
+				}
+			}
+			nret++
 			if len(x.Results) > 0 {
 				var lhs []ast.Expr
 				for _, rn := range resNames {
@@ -1138,4 +1301,95 @@ func (in *inliner) expandExpr(file *ast.File, src []byte, call *ast.CallExpr, c 
 		out = out[:r.s] + r.t + out[r.e:]
 	}
 	return "(" + out + ")", ""
+}
+
+func isNilIdent(e ast.Expr) bool {
+	id, ok := ast.Unparen(e).(*ast.Ident)
+	return ok && id.Name == "nil"
+}
+
+// handler is the caller's `if err != nil { ... return ... }` block that follows (or belongs to) the call site.
+type handler struct {
+	types []string // the helper's result types, written for the caller's file
+	lhs   []string // the names the call's results are bound to at the site ("_" allowed)
+	body  string   // the statements of the handler
+}
+
+func (h *handler) stmts(fs *token.FileSet) ([]ast.Stmt, error) {
+	f, err := parser.ParseFile(fs, "", "package p\nfunc _() {\n"+h.body+"\n}", parser.SkipObjectResolution)
+	if err != nil {
+		return nil, err
+	}
+	return f.Decls[0].(*ast.FuncDecl).Body.List, nil
+}
+
+// handlerOf recognises `a, err := h(...)` followed by `if err != nil { ...; return ... }` (no else), or the if-with-init form of it.
+func (in *inliner) handlerOf(src []byte, st ast.Stmt, form string, next ast.Stmt, sig *types.Signature) *handler {
+	if sig.Results().Len() == 0 {
+		return nil
+	}
+	if n, ok := sig.Results().At(sig.Results().Len() - 1).Type().(*types.Named); !ok || n.Obj().Name() != "error" || n.Obj().Pkg() != nil {
+		return nil
+	}
+	var as *ast.AssignStmt
+	var ifs *ast.IfStmt
+	switch form {
+	case "assign":
+		as = st.(*ast.AssignStmt)
+		ifs, _ = next.(*ast.IfStmt)
+		if ifs == nil || ifs.Init != nil {
+			return nil
+		}
+	case "if-init":
+		ifs = st.(*ast.IfStmt)
+		as = ifs.Init.(*ast.AssignStmt)
+	default:
+		return nil
+	}
+	if ifs.Else != nil || len(as.Lhs) != sig.Results().Len() {
+		return nil
+	}
+	var lhs []string
+	for _, l := range as.Lhs {
+		id, ok := l.(*ast.Ident)
+		if !ok {
+			return nil
+		}
+		lhs = append(lhs, id.Name)
+	}
+	errName := lhs[len(lhs)-1]
+	be, ok := ifs.Cond.(*ast.BinaryExpr)
+	if !ok || be.Op != token.NEQ || !isNilIdent(be.Y) || errName == "_" {
+		return nil
+	}
+	if id, ok := be.X.(*ast.Ident); !ok || id.Name != errName {
+		return nil
+	}
+	n := len(ifs.Body.List)
+	if n == 0 || n > 12 {
+		return nil
+	}
+	last, ok := ifs.Body.List[n-1].(*ast.ReturnStmt)
+	if !ok {
+		return nil
+	}
+	_ = last
+	bad := false
+	ast.Inspect(ifs.Body, func(nd ast.Node) bool {
+		switch x := nd.(type) {
+		case *ast.ReturnStmt:
+			if len(x.Results) == 0 {
+				bad = true // a bare return reads the caller's named results
+			}
+		case *ast.LabeledStmt, *ast.FuncLit, *ast.DeferStmt, *ast.GoStmt:
+			bad = true
+		case *ast.BranchStmt:
+			bad = true
+		}
+		return true
+	})
+	if bad {
+		return nil
+	}
+	return &handler{lhs: lhs, body: string(src[in.off(ifs.Body.Lbrace)+1 : in.off(ifs.Body.Rbrace)])}
 }
